@@ -114,11 +114,13 @@ def apply_move(cfg, rng, tree, tree_dist):
         from mc.virtual import VirtualTimer
 
         samplers = make_samplers(cfg, rng, tree_dist)
+        from mc.chain import _call_by_name
+
         with contextlib.redirect_stdout(io.StringIO()):
-            res = prun._run_main_sampler(
-                False, None, float("inf"), 1, cfg.get("n_dp", 1), cfg.get("n_prg", 1), 100, samplers, ["S"], 1,
-                VirtualTimer(), tree, tree_dist, 0, rng, cfg.get("subtree_prob", 0.0),
-            )
+            res = _call_by_name(prun._run_main_sampler, dict(
+                concentration_update=False, data=None, max_time=float("inf"), num_iters=1, num_samples_data_point=cfg.get("n_dp", 1),
+                num_samples_prune_regraph=cfg.get("n_prg", 1), print_freq=100, samplers=samplers, samples=["S"], thin=1, timer=VirtualTimer(), tree=tree,
+                tree_dist=tree_dist, chain_num=0, rng=rng, subtree_update_prob=cfg.get("subtree_prob", 0.0)))
         from phyclone.tree import Tree
 
         return Tree.from_dict(res["trace"][-1]["tree"])
